@@ -45,7 +45,9 @@ def check(run, tier, seed, replay=None, only=None):
     # behaviours exported from TLC: maximal paths of the state graph of Threads.tla (3 threads x 1 solve, 2 threads x 2
     # solves on one shared plan) are imposed on the real threads step by step
     exported = {}
-    for cfg in ("MC_Threads_sched3.cfg", "MC_Threads_sched2.cfg"):
+    cfgs = ("MC_Threads_sched3.cfg", "MC_Threads_sched2.cfg") if quick else \
+           ("MC_Threads_sched3.cfg", "MC_Threads_sched2.cfg", "MC_Threads_sched4.cfg", "MC_Threads_sched32.cfg")
+    for cfg in cfgs:
         inits, edges, nnodes = tlcgraph.dump("Threads.tla", cfg)
         plist, total = tlcgraph.paths(inits, edges, 5000, seed)
         exported[cfg] = {"states": nnodes, "maximal_paths_in_model": total, "paths_replayed_on_the_implementation": len(plist)}
